@@ -47,28 +47,28 @@ theorem runActs_spec (s i : Nat) (nx : St → Res) (R : List Ev × Bool) (hs63 :
     cases a with
     | emit t =>
       have := ih pre { acc with tr := acc.tr ++ [.mark i t] }
-      simpa [runActs, specStep, List.append_assoc] using this
+      simpa [runActs, specStep, ownEv, List.append_assoc] using this
     | isAborted t =>
       have := ih pre { acc with tr := acc.tr ++ [.aborted i t acc.ab] }
-      simpa [runActs, specStep, List.append_assoc, idxOf_ge s i hs63 hi] using this
+      simpa [runActs, specStep, ownEv, List.append_assoc, idxOf_ge s i hs63 hi] using this
     | abort =>
       have := ih pre { acc with tr := acc.tr ++ [.abort i], ab := true }
-      simpa [runActs, specStep, List.append_assoc, h63] using this
+      simpa [runActs, specStep, ownEv, List.append_assoc, h63] using this
     | abortThen =>
       have := ih pre { acc with tr := acc.tr ++ [.abort i], ab := true }
-      simpa [runActs, specStep, List.append_assoc, h63] using this
+      simpa [runActs, specStep, ownEv, List.append_assoc, h63] using this
     | abortWithStatus c =>
       have := ih pre { acc with tr := acc.tr ++ [.status i c, .abort i], ab := true }
-      simpa [runActs, specStep, List.append_assoc, h63] using this
+      simpa [runActs, specStep, ownEv, List.append_assoc, h63] using this
     | abortWithMsg c =>
       have := ih pre { acc with tr := acc.tr ++ [.status i c, .write i 0, .abort i], ab := true }
-      simpa [runActs, specStep, List.append_assoc, h63] using this
+      simpa [runActs, specStep, ownEv, List.append_assoc, h63] using this
     | setStatus c =>
       have := ih pre { acc with tr := acc.tr ++ [.status i c] }
-      simpa [runActs, specStep, List.append_assoc] using this
+      simpa [runActs, specStep, ownEv, List.append_assoc] using this
     | write t =>
       have := ih pre { acc with tr := acc.tr ++ [.write i t] }
-      simpa [runActs, specStep, List.append_assoc] using this
+      simpa [runActs, specStep, ownEv, List.append_assoc] using this
     | next =>
       by_cases hc : acc.started = false ∧ acc.ab = false
       · obtain ⟨h1, h2⟩ := hc
@@ -163,5 +163,278 @@ theorem serve_eq_onion (hs : List Handler) (hlen : hs.length ≤ 63) :
     serve hs = .ok ⟨idxOf hs.length 0 true (onion 0 hs).2, (onion 0 hs).1⟩ := by
   have := next_eq_onion hs hlen hs.length 0 (by omega) [] (hs.length + 1) (by omega)
   simpa [serve] using this
+
+/-! ### 2. every onion trace passes the validator -/
+
+theorem check_append (s : CSt) (a b : List Ev) :
+    check s (a ++ b) = (check s a).bind (fun s' => check s' b) := by
+  induction a generalizing s with
+  | nil => simp [check]
+  | cons e rest ih =>
+    simp only [List.cons_append, check]
+    cases checkStep s e with
+    | none => simp
+    | some s' => simpa using ih s'
+
+theorem check_snoc {s0 s s' : CSt} {tr evs : List Ev} (h1 : check s0 tr = some s)
+    (h2 : check s evs = some s') : check s0 (tr ++ evs) = some s' := by
+  rw [check_append, h1]; simpa using h2
+
+/-- the events of one action of handler `i` are accepted while `i` is the innermost running handler -/
+theorem check_ownEv (s : CSt) (i : Nat) (a : Act) (h : s.stack.head? = some i) :
+    check s (ownEv i s.ab a).1 = some { s with ab := (ownEv i s.ab a).2 } := by
+  cases a <;> simp [ownEv, check, checkStep, h]
+
+/-- position of the next handler to start after (part of) handler `i`: the rest of the chain starts
+    `kR` handlers if it has been let in -/
+def nxtOf (i kR : Nat) : Bool → Nat
+  | true => i + 1 + kR
+  | false => i + 1
+
+/-- the actions of handler `i`, read by `specStep`, keep the validator happy: `i` stays on top of the
+    stack; the rest of the chain (`R`, which starts `kR` handlers) is spliced in at most once, and only
+    while nothing has aborted -/
+theorem check_fold (i kR : Nat) (R : List Ev × Bool) (stk : List Nat) (s0 : CSt)
+    (hR : check ⟨false, i :: stk, i + 1⟩ R.1 = some ⟨R.2, i :: stk, i + 1 + kR⟩) :
+    ∀ (acts : List Act) (acc : Acc),
+      (check s0 acc.tr = some ⟨acc.ab, i :: stk, nxtOf i kR acc.started⟩ ∧
+        (acc.started = true → acc.ab = false → R.2 = false)) →
+      (check s0 (acts.foldl (specStep i R) acc).tr =
+          some ⟨(acts.foldl (specStep i R) acc).ab, i :: stk,
+                nxtOf i kR (acts.foldl (specStep i R) acc).started⟩ ∧
+        ((acts.foldl (specStep i R) acc).started = true → (acts.foldl (specStep i R) acc).ab = false →
+          R.2 = false)) := by
+  intro acts
+  induction acts with
+  | nil => intro acc h; exact h
+  | cons a rest ih =>
+    intro acc h
+    obtain ⟨hc, hab⟩ := h
+    rw [List.foldl_cons]
+    apply ih
+    by_cases hn : a = .next
+    · subst hn
+      by_cases hcnd : acc.started = false ∧ acc.ab = false
+      · obtain ⟨h1, h2⟩ := hcnd
+        have hstep : specStep i R acc .next = { tr := acc.tr ++ R.1, started := true, ab := R.2 } := by
+          simp [specStep, h1, h2]
+        rw [hstep]
+        simp only [h1, h2, nxtOf] at hc
+        exact ⟨by simpa [nxtOf] using check_snoc hc hR, by intro _ h; exact h⟩
+      · have hcond : (!acc.started && !acc.ab) = false := by
+          revert hcnd; cases acc.started <;> cases acc.ab <;> simp
+        have hstep : specStep i R acc .next = acc := by simp [specStep, hcond]
+        rw [hstep]; exact ⟨hc, hab⟩
+    · have hstep : specStep i R acc a =
+          { acc with tr := acc.tr ++ (ownEv i acc.ab a).1, ab := (ownEv i acc.ab a).2 } := by
+        simp [specStep, hn]
+      rw [hstep]
+      refine ⟨check_snoc hc (check_ownEv _ i a rfl), ?_⟩
+      intro h1 h2
+      have : acc.ab = false := by
+        revert h2; simp only; cases a <;> simp [ownEv]
+      exact hab h1 this
+
+/-- Every onion trace is accepted by `check`, from any stack.  `k` = number of handlers that start;
+    when the request is not aborted at the end, all of them did. -/
+theorem check_onion : ∀ (hs : List Handler) (i : Nat),
+    ∃ k, k ≤ hs.length ∧ ((onion i hs).2 = false → k = hs.length) ∧
+      ∀ stk, check ⟨false, stk, i⟩ (onion i hs).1 = some ⟨(onion i hs).2, stk, i + k⟩ := by
+  intro hs
+  induction hs with
+  | nil => intro i; exact ⟨0, by simp, by simp, by intro stk; simp [onion, check]⟩
+  | cons h rest ih =>
+    intro i
+    obtain ⟨kR, hk1, hk2, hk3⟩ := ih (i + 1)
+    let R := onion (i + 1) rest
+    let acc := h.foldl (specStep i R) ⟨[], false, false⟩
+    have hfold : ∀ stk, check ⟨false, i :: stk, i + 1⟩ acc.tr =
+          some ⟨acc.ab, i :: stk, nxtOf i kR acc.started⟩ ∧
+        (acc.started = true → acc.ab = false → R.2 = false) := by
+      intro stk
+      exact check_fold i kR R stk ⟨false, i :: stk, i + 1⟩ (hk3 (i :: stk)) h ⟨[], false, false⟩
+        ⟨by simp [check, nxtOf], by simp⟩
+    have henter : ∀ stk, checkStep ⟨false, stk, i⟩ (.enter i) = some ⟨false, i :: stk, i + 1⟩ := by
+      intro stk; simp [checkStep]
+    by_cases hcnd : acc.started = false ∧ acc.ab = false
+    · obtain ⟨h1, h2⟩ := hcnd
+      have hcond : (!acc.started && !acc.ab) = true := by simp [h1, h2]
+      refine ⟨kR + 1, by simp; omega, ?_, ?_⟩
+      · intro hab
+        have : (onion i (h :: rest)).2 = R.2 := by simp only [onion]; simp [R, acc, hcond]
+        rw [this] at hab
+        simp [hk2 hab]
+      · intro stk
+        have hf := (hfold stk).1
+        simp only [h1, h2, nxtOf] at hf
+        have e : (onion i (h :: rest)) = ([Ev.enter i] ++ acc.tr ++ [.leave i] ++ R.1, R.2) := by
+          simp only [onion]; simp [R, acc, hcond]
+        rw [e]
+        simp only [List.cons_append, List.nil_append, check, henter, List.append_assoc]
+        rw [check_append, hf]
+        simp only [Option.bind_some, check, checkStep, if_true]
+        have := hk3 stk
+        simp only [R] at this ⊢
+        rw [this]
+        simp; omega
+    · have hcond : (!acc.started && !acc.ab) = false := by
+        revert hcnd; cases acc.started <;> cases acc.ab <;> simp
+      have e : (onion i (h :: rest)) = ([Ev.enter i] ++ acc.tr ++ [.leave i], acc.ab) := by
+        simp only [onion]; simp [R, acc, hcond]
+      refine ⟨if acc.started then kR + 1 else 1, by split <;> simp <;> omega, ?_, ?_⟩
+      · intro hab
+        rw [e] at hab
+        simp only at hab
+        have hst : acc.started = true := by
+          revert hcnd; rw [hab]; cases acc.started <;> simp
+        have hR2 := (hfold []).2 hst hab
+        simp [hst, hk2 hR2]
+      · intro stk
+        have hf := (hfold stk).1
+        rw [e]
+        simp only [List.cons_append, List.nil_append, check, henter]
+        rw [check_append, hf]
+        simp only [Option.bind_some, check, checkStep, if_true]
+        cases acc.started <;> simp [nxtOf] <;> omega
+
+/-! ### 3. the onion in closed form -/
+
+theorem ownEv_ab_true (i : Nat) (a : Act) : (ownEv i true a).2 = true := by
+  cases a <;> simp [ownEv]
+
+theorem ownEv_ab_of_not_abort (i : Nat) (ab : Bool) (a : Act) (h : a.isAbort = false) :
+    (ownEv i ab a).2 = ab := by
+  cases a <;> simp_all [ownEv, Act.isAbort]
+
+theorem ownEv_ab_of_abort (i : Nat) (ab : Bool) (a : Act) (h : a.isAbort = true) :
+    (ownEv i ab a).2 = true := by
+  cases a <;> simp_all [ownEv, Act.isAbort]
+
+theorem flat_ab_true (i : Nat) (acts : List Act) : (flat i true acts).2 = true := by
+  induction acts with
+  | nil => simp [flat]
+  | cons a rest ih => simp [flat, ownEv_ab_true, ih]
+
+/-- once the rest of the chain has run, or after an abort, a handler's remaining actions are "flat" -/
+theorem fold_inert (i : Nat) (R : List Ev × Bool) :
+    ∀ (acts : List Act) (acc : Acc), (acc.started = true ∨ acc.ab = true) →
+      acts.foldl (specStep i R) acc =
+        ⟨acc.tr ++ (flat i acc.ab acts).1, acc.started, (flat i acc.ab acts).2⟩ := by
+  intro acts
+  induction acts with
+  | nil => intro acc _; simp [flat]
+  | cons a rest ih =>
+    intro acc h
+    have hcond : (!acc.started && !acc.ab) = false := by
+      revert h; cases acc.started <;> cases acc.ab <;> simp
+    rw [List.foldl_cons]
+    by_cases hn : a = .next
+    · subst hn
+      have hstep : specStep i R acc .next = acc := by simp [specStep, hcond]
+      rw [hstep, ih acc h]
+      simp [flat, ownEv]
+    · have hstep : specStep i R acc a =
+          { acc with tr := acc.tr ++ (ownEv i acc.ab a).1, ab := (ownEv i acc.ab a).2 } := by
+        simp [specStep, hn]
+      rw [hstep, ih]
+      · simp [flat, List.append_assoc]
+      · rcases h with h | h
+        · exact Or.inl h
+        · right; simp only; rw [h]; exact ownEv_ab_true i a
+
+/-- a handler's actions read from the start: split at the first effective `Next()` -/
+theorem fold_fresh (i : Nat) (R : List Ev × Bool) :
+    ∀ (acts : List Act) (tr : List Ev),
+      acts.foldl (specStep i R) ⟨tr, false, false⟩ =
+        match splitNext acts with
+        | some (pre, post) =>
+          ⟨tr ++ (flat i false pre).1 ++ R.1 ++ (flat i R.2 post).1, true, (flat i R.2 post).2⟩
+        | none => ⟨tr ++ (flat i false acts).1, false, (flat i false acts).2⟩ := by
+  intro acts
+  induction acts with
+  | nil => intro tr; simp [splitNext, flat]
+  | cons a rest ih =>
+    intro tr
+    rw [List.foldl_cons]
+    by_cases hn : a = .next
+    · subst hn
+      have hstep : specStep i R ⟨tr, false, false⟩ .next = ⟨tr ++ R.1, true, R.2⟩ := by simp [specStep]
+      rw [hstep, fold_inert i R rest _ (Or.inl rfl)]
+      simp [splitNext, flat]
+    · have hstep : specStep i R ⟨tr, false, false⟩ a =
+          ⟨tr ++ (ownEv i false a).1, false, (ownEv i false a).2⟩ := by
+        simp [specStep, hn]
+      rw [hstep]
+      by_cases ha : a.isAbort = true
+      · rw [ownEv_ab_of_abort i false a ha, fold_inert i R rest _ (Or.inr rfl)]
+        simp [splitNext, hn, ha, flat, ownEv_ab_of_abort i false a ha, List.append_assoc]
+      · have ha' : a.isAbort = false := by simpa using ha
+        rw [ownEv_ab_of_not_abort i false a ha', ih]
+        simp only [splitNext, hn, ha', if_false, Bool.false_eq_true]
+        cases splitNext rest with
+        | none => simp [flat, ownEv_ab_of_not_abort i false a ha', List.append_assoc]
+        | some pq => simp [flat, ownEv_ab_of_not_abort i false a ha', List.append_assoc]
+
+/-- the onion, one handler at a time, in closed form -/
+theorem onion_cons (i : Nat) (h : Handler) (rest : List Handler) :
+    onion i (h :: rest) = onionStep i h (onion (i + 1) rest) := by
+  simp only [onion, onionStep]
+  rw [fold_fresh]
+  cases splitNext h with
+  | some pq => simp [List.append_assoc]
+  | none =>
+    simp only []
+    cases (flat i false h).2 <;> simp
+
+theorem splitNext_eq : ∀ (h pre post : List Act), splitNext h = some (pre, post) →
+    h = pre ++ .next :: post ∧ (∀ a ∈ pre, a ≠ .next ∧ a.isAbort = false) := by
+  intro h
+  induction h with
+  | nil => intro pre post hs; simp [splitNext] at hs
+  | cons a rest ih =>
+    intro pre post hs
+    simp only [splitNext] at hs
+    by_cases hn : a = .next
+    · simp only [hn, if_true, Option.some.injEq, Prod.mk.injEq] at hs
+      obtain ⟨rfl, rfl⟩ := hs
+      simp [hn]
+    · simp only [hn, if_false] at hs
+      by_cases ha : a.isAbort = true
+      · simp [ha] at hs
+      · simp only [ha, if_false] at hs
+        cases hr : splitNext rest with
+        | none => simp [hr] at hs
+        | some pq =>
+          simp only [hr, Option.map_some, Option.some.injEq, Prod.mk.injEq] at hs
+          obtain ⟨rfl, rfl⟩ := hs
+          obtain ⟨e, hp⟩ := ih pq.1 pq.2 (by rw [hr])
+          refine ⟨by simp [← e], ?_⟩
+          intro x hx
+          simp only [List.mem_cons] at hx
+          rcases hx with rfl | hx
+          · exact ⟨hn, by simpa using ha⟩
+          · exact hp x hx
+
+theorem splitNext_none : ∀ (h : List Act), splitNext h = none → (flat i false h).2 = false →
+    ∀ a ∈ h, a ≠ .next ∧ a.isAbort = false := by
+  intro h
+  induction h with
+  | nil => intro _ _ a ha; simp at ha
+  | cons a rest ih =>
+    intro hs hf x hx
+    simp only [splitNext] at hs
+    by_cases hn : a = .next
+    · simp [hn] at hs
+    · simp only [hn, if_false] at hs
+      by_cases ha : a.isAbort = true
+      · simp only [flat, ownEv_ab_of_abort i false a ha, flat_ab_true] at hf
+        simp at hf
+      · have ha' : a.isAbort = false := by simpa using ha
+        simp only [ha', Bool.false_eq_true, if_false, Option.map_eq_none_iff] at hs
+        simp only [flat, ownEv_ab_of_not_abort i false a ha'] at hf
+        simp only [List.mem_cons] at hx
+        rcases hx with rfl | hx
+        · exact ⟨hn, ha'⟩
+        · exact ih hs hf x hx
 
 end Rux.Chain
